@@ -140,7 +140,7 @@ _PARAM = DECL(("opt", TYPEMAP), {"declarator": DECLARATOR, "template_arguments":
 OPTIONS = ("obj", "Scope0", {"F_CFI": "py"})
 
 
-def make_check_arg_attrs(suffix, targs, params, extra_req=()):
+def make_check_arg_attrs(suffix, targs, params, extra_req=(), extra_ens=()):
     u = Unit(
         prop="C17", name="check_arg_attrs" + suffix, target="shroud/generate.py::VerifyAttrs.check_arg_attrs",
         params={"self": SELF, "node": ("opt", NODE), "arg": _arg_decl(targs, params), "options": ("opt", OPTIONS)},
@@ -159,7 +159,7 @@ def make_check_arg_attrs(suffix, targs, params, extra_req=()):
             "implies(old(arg).attrs['charlen'], arg.typemap is not None and arg.typemap.base == 'string' and arg.is_indirect() == 1 and old(arg).attrs['charlen'] is not True)",
             # an explicit intent survives as one of the three documented values
             "implies(not isnone(old(arg).attrs['intent']), arg.metaattrs['intent'] in ['in', 'out', 'inout'])",
-        ],
+        ] + list(extra_ens),
         raises=["RuntimeError"],
     )
     u.merge_ifs = True
@@ -168,7 +168,13 @@ def make_check_arg_attrs(suffix, targs, params, extra_req=()):
 
 check_arg_attrs = make_check_arg_attrs("", ("clist",), ("clist",))
 check_arg_attrs_t = make_check_arg_attrs("[template]", ("clist", _TARG), ("clist",))
-check_arg_attrs_fp = make_check_arg_attrs("[fptr]", ("clist",), ("clist", _PARAM), ["arg.params[0].is_indirect() >= 0"])
+check_arg_attrs_fp = make_check_arg_attrs(
+    "[fptr]", ("clist",), ("clist", _PARAM), ["arg.params[0].is_indirect() >= 0"],
+    # C04: the parameters of a function-pointer argument go through the same defaulting, whatever the attributes of the
+    # argument itself (the abstract interface is written from them: VALUE iff attrs['value'])
+    ["implies(arg.is_function_pointer() and isnone(pv0_) and isnone(pa0_) and arg.params[0].is_indirect() == 0, "
+     "arg.params[0].attrs['value'] is True)"])
+check_arg_attrs_fp.init = (check_arg_attrs_fp.init or "") + "pv0_ = arg.params[0].attrs['value']\npa0_ = arg.params[0].attrs['assumedtype']\n"
 for _u in (check_arg_attrs, check_arg_attrs_t, check_arg_attrs_fp):
     _u.callee_units[("VerifyAttrs", "check_arg_attrs")] = check_arg_attrs
 
